@@ -8,6 +8,8 @@
 //!
 //!   thread_world ga  <workload seed> <threads>    C05 / C06 / C08: sequential vs parallel evaluator
 //!   thread_world aco <workload seed> <threads>    C19: Ant System update of a large colony
+//!   thread_world exp <workload seed> <threads>    C08 / C15: par_experiment, every run vs the run alone
+//!                                                  (writes under $THREAD_WORLD_DIR; needs -Zmiri-disable-isolation)
 //!
 //! Output: one line `THREAD-WORLD ok ...` (exit 0) or `THREAD-WORLD VIOLATION class=<..> <message>`
 //! (exit 1). Anything else (a panic outside the scenario's guard, a Miri error) is exit != 0, 1.
@@ -16,7 +18,7 @@ use better_any::{Tid, TidAble};
 use mahf::components::generative::PheromoneMatrix;
 use mahf::conditions::LessThanN;
 use mahf::heuristics::{aco, ga};
-use mahf::problems::{Evaluate, ObjectiveFunction, Parallel, Sequential, TravellingSalespersonProblem, VectorProblem};
+use mahf::problems::{Evaluate, KnownOptimumProblem, ObjectiveFunction, Parallel, Sequential, TravellingSalespersonProblem, VectorProblem};
 use mahf::{Problem, Random, SingleObjective, State};
 use std::sync::atomic::{AtomicUsize, Ordering};
 use std::sync::Mutex;
@@ -110,6 +112,37 @@ impl TravellingSalespersonProblem for Tsp {
 impl ObjectiveFunction for Tsp {
     fn objective(&self, x: &Vec<usize>) -> SingleObjective {
         self.len(x).try_into().unwrap()
+    }
+}
+
+/// A named bit problem for experiments (several of them differ in name and weights).
+struct NamedBits {
+    name: String,
+    dim: usize,
+    w: f64,
+}
+impl Problem for NamedBits {
+    type Encoding = Vec<bool>;
+    type Objective = SingleObjective;
+    fn name(&self) -> &str {
+        &self.name
+    }
+}
+impl VectorProblem for NamedBits {
+    type Element = bool;
+    fn dimension(&self) -> usize {
+        self.dim
+    }
+}
+impl ObjectiveFunction for NamedBits {
+    fn objective(&self, x: &Vec<bool>) -> SingleObjective {
+        let v: f64 = x.iter().enumerate().map(|(i, b)| if *b { 0.0 } else { 1.0 + i as f64 * self.w }).sum();
+        v.try_into().unwrap()
+    }
+}
+impl KnownOptimumProblem for NamedBits {
+    fn known_optimum(&self) -> SingleObjective {
+        0.0.try_into().unwrap()
     }
 }
 
@@ -266,10 +299,97 @@ fn scenario_aco(seed: u64, threads: usize) -> Res {
     Ok(what)
 }
 
+/// Decoded CBOR with every map sorted by its encoded keys (the export does not fix an order).
+fn canonical(v: ciborium::Value) -> String {
+    fn go(v: &ciborium::Value) -> String {
+        match v {
+            ciborium::Value::Map(m) => {
+                let mut items: Vec<(String, String)> = m.iter().map(|(k, v)| (go(k), go(v))).collect();
+                items.sort();
+                format!("{{{}}}", items.iter().map(|(k, v)| format!("{k}:{v}")).collect::<Vec<_>>().join(","))
+            }
+            ciborium::Value::Array(a) => format!("[{}]", a.iter().map(go).collect::<Vec<_>>().join(",")),
+            other => format!("{other:?}"),
+        }
+    }
+    go(&v)
+}
+
+fn read_log(path: &std::path::Path) -> Result<String, String> {
+    let bytes = std::fs::read(path).map_err(|e| format!("{}: {e}", path.display()))?;
+    let v: ciborium::Value = ciborium::from_reader(bytes.as_slice()).map_err(|e| format!("{}: does not decode: {e}", path.display()))?;
+    Ok(canonical(v))
+}
+
+fn scenario_exp(seed: u64, threads: usize) -> Res {
+    let mut g = Gen(seed ^ 0x657870);
+    let root = std::path::PathBuf::from(std::env::var("THREAD_WORLD_DIR").unwrap_or_else(|_| "/dev/shm/thread-world".into())).join(format!("exp-{seed}-{threads}-{}", std::process::id()));
+    let _ = std::fs::remove_dir_all(&root);
+    let dim = 3 + g.below(3);
+    let problems: Vec<NamedBits> = (0..2 + g.below(2)).map(|i| NamedBits { name: format!("bits{i}"), dim, w: 0.25 * (i + 1) as f64 }).collect();
+    let runs = 2 + g.below(2) as u64;
+    let params = || ga::BinaryProblemParameters { population_size: 3, tournament_size: 2, rm: 0.3, pc: 0.7, pm: 0.9 };
+    let config = ga::binary_ga(params(), LessThanN::iterations(2)).map_err(|e| ("harness".to_string(), format!("{e:#}")))?;
+    let setup = |state: &mut State<NamedBits>| -> mahf::ExecResult<()> {
+        state.insert_evaluator(Sequential::<NamedBits>::new());
+        state.configure_log(|c| {
+            c.with_common(mahf::conditions::EveryN::iterations(1));
+            Ok(())
+        })
+    };
+    let pool = rayon::ThreadPoolBuilder::new().num_threads(threads).build().map_err(|e| ("harness".to_string(), e.to_string()))?;
+    let exp_dir = root.join("experiment");
+    pool.install(|| mahf::experiments::par_experiment(&config, setup, &problems, runs, &exp_dir, true)).map_err(|e| ("experiment-failed".to_string(), format!("{e:#}")))?;
+    let what = format!("par_experiment {runs} runs x {} problems on {threads} threads", problems.len());
+    // the file set is exact
+    let mut files: Vec<String> = std::fs::read_dir(&exp_dir).map_err(|e| ("harness".to_string(), e.to_string()))?.filter_map(|e| e.ok()).map(|e| e.file_name().to_string_lossy().to_string()).collect();
+    files.sort();
+    let mut expected: Vec<String> = vec!["configuration.ron".to_string()];
+    for p in &problems {
+        for r in 0..runs {
+            expected.push(format!("{}_{r}.cbor", p.name));
+        }
+    }
+    expected.sort();
+    if files != expected {
+        let _ = std::fs::remove_dir_all(&root);
+        return bad("experiment-file-set", format!("{what}: files {files:?}, expected {expected:?}"));
+    }
+    // every log equals the log of the same (problem, Random::new(run)) executed alone
+    let alone_dir = root.join("alone");
+    std::fs::create_dir_all(&alone_dir).map_err(|e| ("harness".to_string(), e.to_string()))?;
+    for p in &problems {
+        for r in 0..runs {
+            let state = config
+                .optimize_with(p, |state| {
+                    state.insert(Random::new(r));
+                    setup(state)
+                })
+                .map_err(|e| ("run-failed alone".to_string(), format!("{e:#}")))?;
+            let f = alone_dir.join(format!("{}_{r}.cbor", p.name));
+            state.log().to_cbor(&f).map_err(|e| ("harness".to_string(), format!("{e:#}")))?;
+            let a = read_log(&f).map_err(|e| ("harness".to_string(), e))?;
+            let b = match read_log(&exp_dir.join(format!("{}_{r}.cbor", p.name))) {
+                Ok(b) => b,
+                Err(e) => {
+                    let _ = std::fs::remove_dir_all(&root);
+                    return bad("experiment-log-unreadable", format!("{what}: {e}"));
+                }
+            };
+            if a != b {
+                let _ = std::fs::remove_dir_all(&root);
+                return bad("experiment-log-differs", format!("{what}: the log of run {r} on {} differs from the log of the same run executed alone", p.name));
+            }
+        }
+    }
+    let _ = std::fs::remove_dir_all(&root);
+    Ok(what)
+}
+
 fn main() {
     let args: Vec<String> = std::env::args().collect();
     if args.len() < 4 {
-        eprintln!("usage: thread_world ga|aco <workload seed> <threads>");
+        eprintln!("usage: thread_world ga|aco|exp <workload seed> <threads>");
         std::process::exit(2);
     }
     let seed: u64 = args[2].parse().expect("seed");
@@ -277,6 +397,7 @@ fn main() {
     let r = match args[1].as_str() {
         "ga" => std::panic::catch_unwind(|| scenario_ga(seed, threads)),
         "aco" => std::panic::catch_unwind(|| scenario_aco(seed, threads)),
+        "exp" => std::panic::catch_unwind(|| scenario_exp(seed, threads)),
         other => {
             eprintln!("unknown scenario {other}");
             std::process::exit(2);
